@@ -31,7 +31,16 @@ EXPLANATION = (
     'combine_simulation_results over grids with symbolic parameter values '
     '(overlaps arise by forking on equalities inside np.union1d and '
     'get_pack_indexes).  Mean and variance are compared as exact rational '
-    'functions of the symbolic statistics.')
+    'functions of the symbolic statistics.  (4) RE-USE histories: objects '
+    'that keep being used after they were merged / appended / combined '
+    '(update, merge and read operations interleaved on up to three results '
+    'and four result sets, merge into never-updated results, '
+    'num_skipped_reps, attached parameters, combine with re-used and swapped '
+    'operands, three operands in both association orders, other parameter '
+    'orders); a shadow model that shares nothing is advanced by the '
+    'definitions and after EVERY operation the receiver is compared with its '
+    'model and every other object with its previous state, so aliasing in '
+    'either direction and stale cached statistics show up.')
 ASSUMPTIONS = [
     'floats are modelled as exact reals (rounding is outside the claim)',
     'RATIOTYPE observations have total != 0',
@@ -121,6 +130,8 @@ def _close(x, y):
 
 def same(x, y):
     """equality of two observed values: SBool (symbolic) or bool"""
+    if x is y and not isinstance(x, float):
+        return True
     if x is None or y is None or isinstance(x, str) or isinstance(y, str):
         if x is None or y is None:
             return x is None and y is None
@@ -165,7 +176,8 @@ def choice_update_works(Rm):
     return _CHOICE_OK[k]
 
 
-def arb_result(mk, Rm, tag, typ, acc, nlist=1, name='r', nmin=0):
+def arb_result(mk, Rm, tag, typ, acc, nlist=1, name='r', nmin=0,
+               pos_total=False):
     """a Result in an arbitrary (symbolic) state, built by the real
     constructor and then filled attribute by attribute"""
     r = new_result(Rm, typ, acc, name)
@@ -204,6 +216,8 @@ def arb_result(mk, Rm, tag, typ, acc, nlist=1, name='r', nmin=0):
         r._value = mk.real(tag + '_value')
         if typ == 'RATIO':
             r._total = mk.real(tag + '_total')
+            if pos_total:      # reachable updated states have total > 0
+                mk.assume(r._total > 0)
     if typ in ('SUM', 'RATIO'):
         r._result_sum = mk.real(tag + '_rs')
         r._result_squared_sum = mk.real(tag + '_rss')
@@ -691,6 +705,517 @@ def scen_combine(mk, cfg, rep):
         all(c == 1 for c in used1) and all(c == 1 for c in used2))
 
 
+
+# ---------------------------------------------------------------------------
+# RE-USE histories: objects that keep being used after they were merged /
+# appended / combined.  Every object has a shadow model (plain state
+# dictionaries combined by the definitions upd_def / oplus; the model never
+# shares anything), after EVERY operation the receiver is compared with its
+# model and every other live object with its own state before the operation
+# (aliasing in either direction shows up as operand- / bystander-mutated).
+def _ind(e):
+    return SInt(0) + e if isinstance(e, SBool) else int(bool(e))
+
+
+def upd_def(typ, acc, s, o):
+    """definition of update(value, total) on a state"""
+    v, t = o
+    out = dict(s)
+    out['num_updates'] = s['num_updates'] + 1
+    out['value_list'] = list(s['value_list'])
+    out['total_list'] = list(s['total_list'])
+    if typ == 'SUM':
+        out['value'] = s['value'] + v
+        out['result_sum'] = s['result_sum'] + v
+        out['result_squared_sum'] = s['result_squared_sum'] + v * v
+    elif typ == 'RATIO':
+        r = v / t
+        out['value'] = s['value'] + v
+        out['total'] = s['total'] + t
+        out['result_sum'] = s['result_sum'] + r
+        out['result_squared_sum'] = s['result_squared_sum'] + r * r
+    elif typ == 'MISC':
+        out['value'] = v
+    else:
+        out['value'] = [c + _ind(v == j) for j, c in enumerate(s['value'])]
+        out['total'] = s['total'] + 1
+    if acc:
+        out['value_list'].append(v)
+        if typ == 'RATIO':
+            out['total_list'].append(t)
+    return out
+
+
+def claimed(typ):
+    return ('value', ) if typ == 'MISC' else FIELDS
+
+
+def read_fields(typ):
+    if typ == 'MISC':
+        return ('value', )
+    return ('mean', 'var')
+
+
+def model_result(typ, st):
+    """get_result() from a state, by definition"""
+    if typ == 'RATIO':
+        return _div(st['value'], st['total'])
+    return st['value']
+
+
+def _reads(mk, r):
+    """the read-only accessors (a cached statistic would be filled here)"""
+    ob = observe(r, True)
+    if not mk.sym:
+        with np.errstate(all='ignore'):
+            try:
+                r.get_confidence_interval()
+            except Exception:
+                pass
+    return ob
+
+
+def scen_history(mk, cfg, rep):
+    """Result level.  cfg: type, acc (one flag per object a,b,c), init (one
+    letter per object: f = never updated, a = arbitrary state, - = absent),
+    ops: Ux (x.update(fresh observation)), Mxy (x.merge(y)), Rx (reads)."""
+    Rm = repo_module(RM)
+    typ = cfg['type']
+    accs = dict(zip('abc', cfg['acc']))
+    objs, model = {}, {}
+    for nm, kind in zip('abc', cfg['init']):
+        if kind == '-':
+            continue
+        if kind == 'f':
+            r = new_result(Rm, typ, accs[nm])
+            if not mk.sym:
+                mk.log.append('%s=Result(%s%s) never updated' % (
+                    nm, typ, ',accumulate' if accs[nm] else ''))
+        else:
+            r = arb_result(mk, Rm, nm, typ, accs[nm], nlist=1)
+        objs[nm] = r
+        model[nm] = state(r)
+    for k, op in enumerate(cfg['ops']):
+        snaps = {nm: state(r) for nm, r in objs.items()}
+        tag = 'h%d%s' % (k, op)
+        touched = operand = None
+        if op[0] == 'U':
+            x = op[1]
+            o = obs(mk, typ, 'o%d' % k)
+            do_update(objs[x], o)
+            model[x] = upd_def(typ, accs[x], model[x], o)
+            touched = x
+            if not mk.sym:
+                mk.log.append('%s.update%r' % (x, tuple(
+                    e for e in o if e is not None)))
+        elif op[0] == 'M':
+            x, y = op[1], op[2]
+            objs[x].merge(objs[y])
+            model[x] = oplus(typ, accs[x], model[x], model[y])
+            touched, operand = x, y
+            if not mk.sym:
+                mk.log.append('%s.merge(%s)' % (x, y))
+        else:
+            x = op[1]
+            ob = _reads(mk, objs[x])
+            rep.compare('%s|read[%s]' % (tag, x), ob, derive(model[x]),
+                        read_fields(typ))
+            res = ob.get('result')
+            if isinstance(res, str):      # "Nothing yet"
+                rep('%s|read[%s]:result' % (tag, x),
+                    same(model[x]['num_updates'], 0))
+            elif typ != 'CHOICE':
+                rep('%s|read[%s]:result' % (tag, x),
+                    same(res, model_result(typ, model[x])))
+            if not mk.sym:
+                mk.log.append('%s.get_result()/mean/var/confidence' % x)
+        for nm, r in objs.items():
+            if nm == touched:
+                rep.compare('%s|cmp[%s]' % (tag, nm), state(r), model[nm],
+                            claimed(typ))
+            else:
+                rep.compare('%s|%s[%s]' % (
+                    tag, 'operand' if nm == operand else 'bystander', nm),
+                    state(r), snaps[nm], FIELDS)
+    for nm, r in objs.items():
+        rep.compare('end|cmp[%s]' % nm, observe(r), derive(model[nm]),
+                    cmp_fields(typ))
+
+
+def _is_zero(n):
+    """True / False when decided without the solver, else None"""
+    if isinstance(n, (int, np.integer)):
+        return int(n) == 0
+    return None
+
+
+def history_ok(init, accs, ops):
+    """static validity: objects exist, an accumulating receiver needs an
+    accumulating operand"""
+    for op in ops:
+        for x in op[1:]:
+            if init['abc'.index(x)] == '-':
+                return False
+        if op[0] == 'M' and accs['abc'.index(op[1])] and not accs[
+                'abc'.index(op[2])]:
+            return False
+    return True
+
+
+H_QUICK = [
+    # merge into a never-updated result, then keep using both sides
+    ('faa', ['Mab', 'Ub', 'Ua', 'Mac', 'Ub', 'Uc']),
+    ('faa', ['Mab', 'Mac', 'Ub', 'Uc', 'Ua', 'Ra']),
+    ('ffa', ['Mab', 'Ua', 'Ub', 'Mab', 'Mac', 'Ub']),
+    ('ffa', ['Mac', 'Mbc', 'Ua', 'Uc', 'Mab']),
+    # reads between updates / merges (a cached statistic would go stale)
+    ('aa-', ['Ra', 'Ua', 'Ra', 'Mab', 'Ra', 'Rb', 'Ub', 'Mba', 'Rb']),
+    ('fa-', ['Ra', 'Mab', 'Ra', 'Ua', 'Ra', 'Ub', 'Mab', 'Ra']),
+    # an operand that is merged twice / merged after having received
+    ('aaa', ['Mab', 'Ub', 'Mab', 'Mba', 'Ua', 'Mca', 'Ua']),
+    ('aaf', ['Mca', 'Ua', 'Mcb', 'Uc', 'Mac', 'Ub']),
+]
+H_ALPHABET = ('Ua', 'Ub', 'Mab', 'Mba', 'Mac', 'Mca', 'Ra')
+
+
+NSR = 'num_skipped_reps'
+
+
+def _nsr0():
+    """state of add_new_result('num_skipped_reps', SUMTYPE, 0)"""
+    st = empty_state('SUM')
+    st['num_updates'] = 1
+    return st
+
+
+def scen_set_history(mk, cfg, rep):
+    """SimulationResults level.  cfg: init {set: 'empty'|'arb'}, nsr (letters
+    of the sets that hold a num_skipped_reps result), params (attach a
+    SimulationParameters object to every set), ops: mXY
+    (X.merge_all_results(Y)), aXY (X.append_all_results(Y); Y is handed over
+    and not used again -- unless strict_append), uX (update the last result of
+    every name of X), rX (reads)."""
+    import copy as _copy
+    Rm, Pm = repo_module(RM), repo_module(PM)
+    types = cfg.get('types', SET_TYPES)
+    acc = cfg['acc']
+    typof = {t.lower(): t for t in types}
+    typof[NSR] = 'SUM'
+    live, M, P = {}, {}, {}
+    for X in sorted(cfg['init']):
+        S = Rm.SimulationResults()
+        if cfg.get('params'):
+            pr = Pm.SimulationParameters.create(
+                {'who': X, 'grid': [1, 2, ord(X)]})
+            pr.set_unpack_parameter('grid')
+            S.set_parameters(pr)
+            P[X] = (pr, _copy.deepcopy(pr.parameters))
+        if cfg['init'][X] == 'arb':
+            for typ in types:
+                S.add_result(arb_result(mk, Rm, '%s_%s' % (X, typ), typ, acc,
+                                        nlist=1, name=typ.lower(), nmin=1,
+                                        pos_total=True))
+            if X in cfg.get('nsr', ''):
+                S.add_result(arb_result(mk, Rm, X + '_nsr', 'SUM', False,
+                                        name=NSR, nmin=1))
+        live[X] = S
+        M[X] = {nm: [state(r) for r in S[nm]] for nm in S.get_result_names()}
+
+    def racc(nm):
+        return False if nm == NSR else acc
+
+    for k, op in enumerate(cfg['ops']):
+        snaps = {(X, nm, i): state(r) for X, S in live.items()
+                 for nm in S.get_result_names() for i, r in enumerate(S[nm])}
+        tag = 's%d%s' % (k, op)
+        touched, operand = {}, None
+        X = op[1]
+        if op[0] == 'm':
+            Y = operand = op[2]
+            live[X].merge_all_results(live[Y])
+            if not M[X]:
+                M[X] = {nm: [dict(st) for st in sts]
+                        for nm, sts in M[Y].items()}
+                for nm, sts in M[X].items():
+                    for i in range(len(sts)):
+                        touched[(X, nm, i)] = 'copy'
+            else:
+                for nm in list(M[X]):
+                    if nm != NSR:
+                        M[X][nm][-1] = oplus(typof[nm], racc(nm),
+                                             M[X][nm][-1], M[Y][nm][-1])
+                        touched[(X, nm, len(M[X][nm]) - 1)] = 'merge'
+                if NSR in M[Y]:
+                    if NSR not in M[X]:
+                        M[X][NSR] = [_nsr0()]
+                    M[X][NSR][-1] = oplus('SUM', False, M[X][NSR][-1],
+                                          M[Y][NSR][-1])
+                    touched[(X, NSR, len(M[X][NSR]) - 1)] = 'merge'
+            if not mk.sym:
+                mk.log.append('%s.merge_all_results(%s)' % (X, Y))
+        elif op[0] == 'a':
+            Y = operand = op[2]
+            live[X].append_all_results(live[Y])
+            for nm, sts in M[Y].items():
+                lst = M[X].setdefault(nm, [])
+                for st in sts:
+                    lst.append(dict(st))
+                    touched[(X, nm, len(lst) - 1)] = 'copy'
+            if not cfg.get('strict_append'):
+                del live[Y]       # handed over (reference semantics)
+            if not mk.sym:
+                mk.log.append('%s.append_all_results(%s)' % (X, Y))
+        elif op[0] == 'u':
+            for nm in list(M[X]):
+                if nm == NSR:
+                    continue
+                o = obs(mk, typof[nm], 'o%d_%s' % (k, nm))
+                do_update(live[X][nm][-1], o)
+                M[X][nm][-1] = upd_def(typof[nm], racc(nm), M[X][nm][-1], o)
+                touched[(X, nm, len(M[X][nm]) - 1)] = 'update'
+                if not mk.sym:
+                    mk.log.append('%s[%r][-1].update%r' % (X, nm, tuple(
+                        e for e in o if e is not None)))
+        else:
+            for nm in list(M[X]):
+                if nm == NSR:
+                    continue
+                ob = _reads(mk, live[X][nm][-1])
+                rep.compare('%s|read[%s.%s]' % (tag, X, nm), ob,
+                            derive(M[X][nm][-1]),
+                            ('value', ) if typof[nm] == 'MISC' else
+                            ('mean', 'var'))
+        for Z, S in live.items():
+            names = S.get_result_names()
+            rep('%s|names[%s]:names' % (tag, Z), sorted(names) == sorted(M[Z]))
+            if cfg.get('params'):
+                rep('%s|params[%s]:params' % (tag, Z),
+                    S.params is P[Z][0] and
+                    S.params.parameters == P[Z][1])
+            for nm in M[Z]:
+                if nm not in names:
+                    continue
+                real = S[nm]
+                rep('%s|len[%s.%s]:len' % (tag, Z, nm),
+                    len(real) == len(M[Z][nm]))
+                for i, st in enumerate(M[Z][nm]):
+                    if i >= len(real):
+                        break
+                    how = touched.get((Z, nm, i))
+                    if how is not None:
+                        fields = FIELDS if how == 'copy' else (
+                            ('value', ) if nm == NSR else claimed(typof[nm]))
+                        rep.compare('%s|cmp[%s.%s.%d]' % (tag, Z, nm, i),
+                                    state(real[i]), st, fields)
+                    elif (Z, nm, i) in snaps:
+                        rep.compare('%s|%s[%s.%s.%d]' % (
+                            tag, 'operand' if Z == operand else 'bystander',
+                            Z, nm, i), state(real[i]), snaps[(Z, nm, i)],
+                            FIELDS)
+    for Z, S in live.items():
+        for nm in M[Z]:
+            if nm == NSR or nm not in S.get_result_names():
+                continue
+            for i, st in enumerate(M[Z][nm]):
+                if i < len(S[nm]):
+                    rep.compare('end|cmp[%s.%s.%d]' % (Z, nm, i),
+                                observe(S[nm][i]), derive(st),
+                                cmp_fields(typof[nm]))
+
+
+def set_history_ok(init, ops, strict=False):
+    """static validity: the operand of a merge / append is a live, non-empty
+    set holding every name of the receiver; updates need results"""
+    empty = {X: k == 'empty' for X, k in init.items()}
+    livep = set(init)
+    for op in ops:
+        X = op[1]
+        if X not in livep:
+            return False
+        if op[0] in 'ma':
+            Y = op[2]
+            if Y not in livep or Y == X or empty[Y]:
+                return False
+            empty[X] = False
+            if op[0] == 'a' and not strict:
+                livep.discard(Y)
+        elif empty[X]:
+            return False
+    return True
+
+
+SH_QUICK = [
+    # copy made by the merge into an empty set: both directions afterwards
+    (dict(A='empty', B='arb', C='arb'),
+     ['mAB', 'uB', 'mAC', 'uC', 'uA', 'mBC', 'rA']),
+    (dict(A='empty', B='arb', C='arb'),
+     ['mAB', 'uA', 'mAB', 'uB', 'mBA', 'uA']),
+    # append (hand-over) and merge interleaved: only the last result of a
+    # name receives the merge
+    (dict(A='empty', B='arb', C='arb', D='arb'),
+     ['aAB', 'mAC', 'uC', 'aAC', 'mAD', 'uD', 'uA']),
+    (dict(A='arb', B='arb', C='arb', D='arb'),
+     ['rA', 'mAB', 'aAB', 'uA', 'mAC', 'rA', 'uC', 'mAD']),
+    (dict(A='empty', B='arb', C='arb', D='arb'),
+     ['mAB', 'aAC', 'uB', 'mAD', 'uA', 'mDB']),
+]
+SH_NSR = (dict(A='arb', B='arb', C='arb'),
+          ['mAB', 'mAC', 'uB', 'mBC', 'uA', 'mAB'])   # used with nsr='BC'
+SH_ALPHABET = ('mAB', 'mAC', 'mBA', 'mBC', 'aAB', 'aAC', 'uA', 'uB', 'uC',
+               'rA')
+
+
+# ---- combine with re-used operands, three-way, parameter orders -------------
+def _grid(mk, spec):
+    return [mk.real(e) if isinstance(e, str) else e for e in spec]
+
+
+def _distinct(mk, g):
+    for i in range(len(g)):
+        for k in range(i + 1, len(g)):
+            if isinstance(g[i], (int, float)) and isinstance(g[k],
+                                                             (int, float)):
+                if g[i] == g[k]:
+                    return False
+            elif not mk.assume(g[i] != g[k]):
+                return False
+    return True
+
+
+def _mk_grid_set(mk, Rm, Pm, tag, typ, pv, qv, rev=False, fresh=False):
+    """result set over p (x q) holding one result of `typ` per combination"""
+    dt = object if mk.sym else float
+    items = [('f', 10), ('fl', [1, 2]), ('p', np.array(pv, dtype=dt))]
+    unpack = ['p']
+    if qv is not None:
+        items.append(('q', np.array(qv)))
+        unpack.append('q')
+    if rev:      # other insertion order / other order of the unpack marks
+        items.reverse()
+        unpack.reverse()
+    params = Pm.SimulationParameters.create(dict(items))
+    for nm in unpack:
+        params.set_unpack_parameter(nm)
+    S = Rm.SimulationResults()
+    S.set_parameters(params)
+    for i in range(len(pv)):
+        for k in range(len(qv) if qv is not None else 1):
+            if fresh:
+                r = new_result(Rm, typ, False, name='res')
+            else:
+                r = arb_result(mk, Rm, '%s_%d%d' % (tag, i, k), typ, False,
+                               name='res', nmin=1)
+            S.append_result(r)
+    if not mk.sym:
+        mk.log.append('%s: p=%r q=%r%s%s' % (tag, list(pv), qv, ' reversed-'
+                                             'order' if rev else '',
+                                             ' never-updated' if fresh
+                                             else ''))
+    return S
+
+
+def _check_union(mk, rep, tag, typ, U, parts):
+    """U must hold, per parameter combination, the fold (in operand order) of
+    the states of the operands that simulated that combination.
+    parts: list of (pv, qv, states)"""
+    variations = U.params.get_unpacked_params_list()
+    got = U['res']
+    rep('%s|len:len' % tag, len(got) == len(variations))
+    used = [[0] * len(st) for _, _, st in parts]
+    for j, var in enumerate(variations):
+        if j >= len(got):
+            break
+        u = var['p']
+        want = empty_state(typ)
+        srcs = 0
+        for n, (pv, qv, sts) in enumerate(parts):
+            nq = len(qv) if qv is not None else 1
+            idx = [i * nq + k for i in range(len(pv)) for k in range(nq)
+                   if (qv is None or qv[k] == var['q']) and bool(pv[i] == u)]
+            rep('%s|sources[%d.%d]:count' % (tag, j, n), len(idx) <= 1)
+            for i in idx[:1]:
+                used[n][i] += 1
+                want = oplus(typ, False, want, sts[i])
+                srcs += 1
+        if all(qv is None for _, qv, _ in parts):
+            rep('%s|sources[%d]:count' % (tag, j), srcs >= 1)
+        rep.compare('%s|cmp[%d]' % (tag, j), observe(got[j]), derive(want),
+                    cmp_fields(typ, with_lists=False))
+    rep('%s|every-input-combination-used-once:count' % tag,
+        all(c == 1 for u_ in used for c in u_))
+
+
+def scen_combine_reuse(mk, cfg, rep):
+    Rm, Pm = repo_module(RM), repo_module(PM)
+    typ = cfg['type']
+    grids = [_grid(mk, g) for g in cfg['grids']]
+    if not all(_distinct(mk, g) for g in grids):
+        return
+    qs = cfg.get('q') or [None] * len(grids)
+    sets = [_mk_grid_set(mk, Rm, Pm, 'S%d' % (n + 1), typ, g, qs[n],
+                         rev=(n in cfg.get('rev', [])),
+                         fresh=(n in cfg.get('fresh', [])))
+            for n, g in enumerate(grids)]
+
+    def part(n):
+        return (grids[n], qs[n], [state(r) for r in sets[n]['res']])
+
+    def unchanged(tag, before):
+        for n, S in enumerate(sets):
+            for j, r in enumerate(S['res']):
+                rep.compare('%s|operand[S%d.%d]' % (tag, n + 1, j), state(r),
+                            before[n][2][j], FIELDS)
+            rep('%s|operand-params[S%d]:params' % (tag, n + 1),
+                bool(all_of([same(a, b) for a, b in zip(
+                    list(S.params['p']), grids[n])])) and
+                S.params['fl'] == [1, 2] and
+                sorted(S.params.unpacked_parameters) == sorted(
+                    ['p'] + (['q'] if qs[n] is not None else [])))
+
+    before = [part(n) for n in range(len(sets))]
+    U = Rm.combine_simulation_results(sets[0], sets[1])
+    unchanged('c12', before)
+    _check_union(mk, rep, 'c12', typ, U, before[:2])
+    # the union owns its objects
+    ops_res = [r for S in sets for r in S['res']]
+    rep('c12|alias:result-objects', all(
+        all(u is not r and (not isinstance(u._value, np.ndarray) or
+                            u._value is not r._value) and
+            u._value_list is not r._value_list for r in ops_res)
+        for u in U['res']))
+    rep('c12|alias:params', all(
+        U.params is not S.params and U.params['p'] is not S.params['p'] and
+        U.params['fl'] is not S.params['fl'] for S in sets[:2]))
+    # operands and union keep being used
+    snapU = [state(r) for r in U['res']]
+    for j in sorted({0, len(sets[0]['res']) - 1}):
+        o = obs(mk, typ, 'oS1_%d' % j)
+        do_update(sets[0]['res'][j], o)
+        before[0][2][j] = upd_def(typ, False, before[0][2][j], o)
+    for j, r in enumerate(U['res']):
+        rep.compare('reuse|bystander[U.%d]' % j, state(r), snapU[j], FIELDS)
+    unchanged('reuse-S1-updated', before)
+    do_update(U['res'][0], obs(mk, typ, 'oU_0'))
+    unchanged('reuse-U-updated', before)
+    # the same operands again: S1 has moved on, S2 is as before
+    V = Rm.combine_simulation_results(sets[0], sets[1])
+    unchanged('c12-again', before)
+    _check_union(mk, rep, 'c12-again', typ, V, before[:2])
+    if typ != 'MISC':
+        W = Rm.combine_simulation_results(sets[1], sets[0])
+        unchanged('c21', before)
+        _check_union(mk, rep, 'c21', typ, W, [before[1], before[0]])
+    if len(sets) == 3:
+        L = Rm.combine_simulation_results(
+            Rm.combine_simulation_results(sets[0], sets[1]), sets[2])
+        unchanged('c(12)3', before)
+        _check_union(mk, rep, 'c(12)3', typ, L, before)
+        R = Rm.combine_simulation_results(
+            sets[0], Rm.combine_simulation_results(sets[1], sets[2]))
+        unchanged('c1(23)', before)
+        _check_union(mk, rep, 'c1(23)', typ, R, before)
+
+
 # ---------------------------------------------------------------------------
 def _exc_key(exc, cls, prop=PROPERTY):
     """<entry point> > <innermost /repo function> of an exception"""
@@ -831,14 +1356,20 @@ class _Base(Harness):
                  if e.get('status') == 'known'}
         n = 0
         for _ in range(self.n_concrete):
-            rep, exc = self._run(cfg, ConcVals(rng=rng, api=True))
+            mk = ConcVals(rng=rng, api=True)
+            rep, exc = self._run(cfg, mk)
             bad = [self.key_for(cfg, nm) for nm in rep.failed]
             if exc is not None:
                 bad.append(_exc_key(exc, self.exc_cls(cfg)))
             new = [k for k in bad if k not in known]
             if new:
-                raise AssertionError('differential run fails: %r %r' %
-                                     (new[:4], rep.detail))
+                # a run of the real code through the public API that breaks
+                # the oracle is a replayed counterexample already
+                from pysym.runner import ConcreteViolation
+                raise ConcreteViolation(
+                    new[0] + ':concrete-probe',
+                    dict(cfg=cfg, failed=rep.failed[:6], calls=mk.log[:12],
+                         detail=str(rep.detail)[:600]))
             if not bad:
                 n += 1
         return n
@@ -1071,7 +1602,245 @@ class Combine(_Base):
         return n
 
 
-HARNESSES = [Laws(), Partitions(), Sets(), Combine()]
+def _reuse_key(prop_site, cls, name):
+    ctxt, _, rest = name.partition('|')
+    kind, _, field = rest.partition(':')
+    base = kind.split('[')[0]
+    if base in ('operand', 'operand-params'):
+        what = 'operand-mutated'
+    elif base == 'bystander':
+        what = 'bystander-mutated(aliasing)'
+    elif base == 'alias':
+        what = 'aliases-operand:' + field
+    else:
+        what = 'differs:%s:%s' % (base, field)
+    return '%s/%s/%s:%s' % (PROPERTY, prop_site, cls, what)
+
+
+def _seqs(alphabet, maxlen):
+    import itertools
+    for n in range(1, maxlen + 1):
+        for seq in itertools.product(alphabet, repeat=n):
+            yield list(seq)
+
+
+class Histories(_Base):
+    """re-use histories of Result objects: update / merge / read interleaved,
+    merge into never-updated results, operands that keep being updated or are
+    merged again, mixed accumulation."""
+    name = 'histories'
+    scenario = staticmethod(scen_history)
+    site = 'Result.history'
+    functions = (RM + ':Result.update', RM + ':Result.merge',
+                 RM + ':Result.get_result', RM + ':Result.get_result_mean',
+                 RM + ':Result.get_result_var',
+                 RM + ':Result.get_confidence_interval')
+    bounds = ('up to three Result objects (never updated / arbitrary symbolic '
+              'state), curated histories of 5..9 operations (quick); thorough: '
+              'additionally ALL operation sequences of length 2 (and 3 from '
+              'a never-updated receiver, acc on) over {a.update, b.update, a.merge(b), '
+              'b.merge(a), a.merge(c), c.merge(a), reads of a}; after every '
+              'operation every object is compared with its model / its '
+              'previous state; all four types; accumulate on/off/mixed')
+    outside = ('get_confidence_interval is only called (concrete runs), its '
+               'value is not compared', 'self-merge a.merge(a)')
+    n_concrete = 3
+
+    def cls(self, cfg):
+        return '%sTYPE/acc=%s' % (cfg['type'], ''.join(
+            'T' if a else 'F' for a in cfg['acc']))
+
+    def key_for(self, cfg, name):
+        return _reuse_key(self.site, self.cls(cfg), name)
+
+    def configs(self, tier):
+        out = []
+        F3, T3 = [False] * 3, [True] * 3
+        for t in TYPES:
+            for k, (init, ops) in enumerate(H_QUICK):
+                out.append(dict(type=t, acc=T3, init=init, ops=ops))
+                if k in (0, 4, 6) or tier != 'quick':
+                    out.append(dict(type=t, acc=F3, init=init, ops=ops))
+            # accumulating operands merged into a non-accumulating receiver
+            out.append(dict(type=t, acc=[False, True, True], init='faa',
+                            ops=['Mab', 'Ub', 'Ua', 'Mac', 'Uc', 'Mcb', 'Ra']))
+        if tier != 'quick':
+            for t in TYPES:
+                for accs, inits, ml, alpha in (
+                        (F3, ('faa', 'aaa'), 2, H_ALPHABET),
+                        (T3, ('faa', ), 3, H_ALPHABET[:5] + ('Ra', )),
+                        (T3, ('aaa', 'ffa'), 2, H_ALPHABET)):
+                    for init in inits:
+                        for ops in _seqs(alpha, ml):
+                            if len(ops) > 1 and history_ok(init, accs, ops):
+                                out.append(dict(type=t, acc=accs, init=init,
+                                                ops=ops))
+        return out
+
+
+class SetHistories(_Base):
+    """re-use histories of SimulationResults: merge_all_results /
+    append_all_results interleaved, operands and receivers updated afterwards,
+    num_skipped_reps, attached parameters."""
+    name = 'set-histories'
+    scenario = staticmethod(scen_set_history)
+    site = 'SimulationResults.history'
+    functions = Sets.functions if False else (
+        RM + ':SimulationResults.merge_all_results',
+        RM + ':SimulationResults.append_all_results',
+        RM + ':SimulationResults.append_result',
+        RM + ':SimulationResults.add_new_result',
+        RM + ':SimulationResults.set_parameters', RM + ':Result.merge',
+        RM + ':Result.update')
+    bounds = ('up to four result sets (empty / one result of each type in an '
+              'arbitrary symbolic state with num_updates >= 1 and RATIO total '
+              '> 0, optionally a num_skipped_reps '
+              'result and attached parameters); curated histories of 6..8 '
+              'operations (quick); thorough: ALL valid operation sequences of '
+              'length 2 and (SUM+RATIO+MISC sets) 3 over {A.merge(B), A.merge(C), B.merge(A), '
+              'B.merge(C), A.append(B), A.append(C), update A/B/C, reads}; '
+              'after every operation every live result is compared with its '
+              'model / previous state')
+    outside = ('a set handed to append_all_results is not used again '
+               '(append stores the very Result objects: reference semantics; '
+               'C06_STRICT_APPEND=1 checks the copy semantics instead)',
+               "num_skipped_reps: only its value is compared (its update "
+               "count follows the runner's create-with-0 convention)",
+               'operands lacking a name of the receiver (KeyError, pinned by '
+               'the test-suite)')
+    n_concrete = 3
+
+    def cls(self, cfg):
+        return '%s/A=%s%s%s%s' % ('+'.join(cfg.get('types', ['ALL'])),
+                                  cfg['init'].get('A'),
+                               '+acc' if cfg['acc'] else '',
+                               '+nsr' if cfg.get('nsr') else '',
+                               '+strict-append' if cfg.get('strict_append')
+                               else '')
+
+    def exc_cls(self, cfg):
+        return 'set-history'
+
+    def key_for(self, cfg, name):
+        return _reuse_key(self.site, self.cls(cfg), name)
+
+    def configs(self, tier):
+        import os
+        out = []
+        for k, (init, ops) in enumerate(SH_QUICK):
+            live = ''.join(sorted(init))
+            for types in (['SUM', 'RATIO', 'MISC'], ['CHOICE']):
+                out.append(dict(init=init, ops=ops, acc=False, params=True,
+                                nsr='', types=types))
+                out.append(dict(init=init, ops=ops, acc=True, params=False,
+                                types=types,
+                                nsr=[live[1:], live[2:], live[1] + live[-1],
+                                     live, live[:2]][k]))
+        for types in (['SUM', 'RATIO', 'MISC'], ['CHOICE']):
+            # receiver without, operands with a num_skipped_reps result
+            out.append(dict(init=SH_NSR[0], ops=SH_NSR[1], acc=False,
+                            params=True, nsr='BC', types=types))
+        if os.environ.get('C06_STRICT_APPEND'):
+            out.append(dict(init=dict(A='empty', B='arb', C='arb'),
+                            ops=['aAB', 'mAC'], acc=False, nsr='',
+                            types=['SUM'], strict_append=True))
+        if tier != 'quick':
+            G3, CH = ['SUM', 'RATIO', 'MISC'], ['CHOICE']
+            for a0, acc, types, ml in (('empty', True, G3, 3),
+                                       ('arb', False, G3, 3),
+                                       ('empty', False, G3, 2),
+                                       ('arb', True, G3, 2),
+                                       ('empty', True, CH, 2),
+                                       ('arb', False, CH, 2)):
+                init = dict(A=a0, B='arb', C='arb')
+                for ops in _seqs(SH_ALPHABET, ml):
+                    if len(ops) > 1 and set_history_ok(init, ops):
+                        out.append(dict(init=init, ops=ops, acc=acc,
+                                        nsr='BC' if acc else '',
+                                        params=not acc, types=types))
+        return out
+
+
+class CombineReuse(_Base):
+    """combine_simulation_results with operands that are re-used afterwards,
+    three operands in both association orders, swapped operands, parameters
+    inserted / unpacked in another order, never-updated operand."""
+    name = 'combine-reuse'
+    scenario = staticmethod(scen_combine_reuse)
+    site = 'combine_simulation_results/reuse'
+    functions = Combine.functions
+    bounds = ('grids mixing symbolic and constant parameter values: [a,1] + '
+              '[b,2] (+ [1,2]); both association orders of three operands, '
+              'operands swapped, the same operands combined again after they '
+              'were updated; results of one type in arbitrary symbolic states '
+              '(num_updates >= 1) or never updated; thorough: second unpacked '
+              'parameter with reversed insertion / unpack order, three '
+              'symbolic values')
+    outside = Combine.outside[:1] + (
+        'accumulated lists of combined results', )
+    n_concrete = 8
+    unit_wall_s = {'quick': 240, 'thorough': 900}
+
+    def cls(self, cfg):
+        return '%s/%dsets%s%s%s' % (cfg['type'], len(cfg['grids']),
+                                     '/2params' if cfg.get('q') else '',
+                                     '/rev' if cfg.get('rev') else '',
+                                     '/fresh' if cfg.get('fresh') else '')
+
+    def exc_cls(self, cfg):
+        return cfg['type'] + 'TYPE'
+
+    def key_for(self, cfg, name):
+        return _reuse_key(self.site, self.cls(cfg), name)
+
+    def configs(self, tier):
+        g3 = [['a', 1], ['b', 2], [1, 2]]
+        g2 = [['a', 1], [1, 'b']]
+        out = [dict(type='SUM', grids=g3), dict(type='RATIO', grids=g2),
+               dict(type='MISC', grids=g2), dict(type='CHOICE', grids=g2),
+               dict(type='SUM', grids=g2, fresh=[1])]
+        if tier != 'quick':
+            out += [dict(type=t, grids=g3) for t in ('RATIO', 'MISC',
+                                                     'CHOICE')]
+            out += [dict(type=t, grids=g3, q=[[1, 2], [2, 3], [3, 1]],
+                         rev=[1]) for t in ('SUM', 'CHOICE')]
+            out += [dict(type=t, grids=g2, q=[[1, 2], [2, 1]], rev=[0])
+                    for t in TYPES]
+            out += [dict(type='RATIO', grids=g3, fresh=[2]),
+                    dict(type='CHOICE', grids=g2, fresh=[0]),
+                    dict(type='SUM', grids=[['a', 'c'], ['b', 2], [1, 2]])]
+        return out
+
+    def concrete(self, cfg, rng):
+        """public API on floats; overlapping and nearly-equal grid values"""
+        known = {e['key'] for e in load_known(PROPERTY)
+                 if e.get('status') == 'known'}
+        forced = [{}, dict(a=2.0, b=1.0), dict(a=1.0 + 1e-9, b=2.0 - 1e-9),
+                  dict(a=2.0, b=2.0 + 4e-16 * 2), dict(a=1e-9, b=2e-9),
+                  dict(a=2.0 + 1e-12, b=1.0 - 1e-12), dict(a=-1.0, b=-1.0),
+                  dict(a=1.0 + 2e-16, b=1.0)]
+        n = 0
+        for it in range(self.n_concrete):
+            mk = ConcVals(rng=rng, api=True)
+            mk.model = dict(forced[it % len(forced)])
+            rep, exc = self._run(cfg, mk)
+            bad = [self.key_for(cfg, nm) for nm in rep.failed]
+            if exc is not None:
+                bad.append(_exc_key(exc, self.exc_cls(cfg)))
+            new = [k for k in bad if k not in known]
+            if new:
+                from pysym.runner import ConcreteViolation
+                raise ConcreteViolation(
+                    new[0] + ':concrete-probe',
+                    dict(parameter_values=mk.model, failed=rep.failed[:6],
+                         calls=mk.log[:8], detail=str(rep.detail)[:600]))
+            if not bad:
+                n += 1
+        return n
+
+
+HARNESSES = [Laws(), Partitions(), Sets(), Combine(), Histories(),
+             SetHistories(), CombineReuse()]
 
 MANIFEST = dict(
     category='model_checking',
@@ -1086,8 +1855,11 @@ MANIFEST = dict(
     'definition (value, total, update count, mean, variance as exact rational '
     'functions); (iii) set-level merges into empty/non-empty sets in both '
     'groupings and combine over 2+2 symbolic parameter values with overlaps '
-    'by forking.  z3 decides every comparison; counterexamples are replayed '
-    'on the real code.',
+    'by forking; (iv) re-use histories (update/merge/read/append/combine '
+    'interleaved on objects that were already merged, appended or combined; '
+    'curated in quick, all sequences of length 2-3 in thorough) against a '
+    'non-sharing shadow model after every operation.  z3 decides every '
+    'comparison; counterexamples are replayed on the real code.',
     note='floats modelled as exact reals; RATIO totals non-zero; MISC: only '
     '"last observation wins"; arbitrary states are built by the real '
     'constructor plus attribute assignment; 3 choices; grids of 2 symbolic '
